@@ -363,16 +363,19 @@ Problems27H(o) ==
       SignatureAndHashAlgorithm reading, or for the TLS 1.3 style code points the scheme's own
       signature / hash, or the literal byte names - all allowed).                               *)
 LegacyHashName(h) == CASE h = 0 -> "none" [] h = 1 -> "md5" [] h = 2 -> "sha1" [] h = 3 -> "sha224" [] h = 4 -> "sha256"
-                       [] h = 5 -> "sha384" [] h = 6 -> "sha512" [] h = 8 -> "intrinsic" [] OTHER -> "unknown"
+                       [] h = 5 -> "sha384" [] h = 6 -> "sha512" [] h = 8 -> "intrinsic" [] OTHER -> "unknown." \o ToString(h)
+\* a byte may always be named literally: "unknown.<n>" (what the log prints for a value outside its
+\* own name table) identifies the wire byte exactly
+Literal(n) == "unknown." \o ToString(n)
 SchemeNames(s) ==
   LET h == s \div 256  g == s % 256 IN
-  IF h = 8 THEN CASE g \in {4, 9}  -> [sig |-> {"rsa", "rsapss"}, hash |-> {"sha256", "intrinsic"}]
-                  [] g \in {5, 10} -> [sig |-> {"rsa", "rsapss"}, hash |-> {"sha384", "intrinsic"}]
-                  [] g \in {6, 11} -> [sig |-> {"rsa", "rsapss"}, hash |-> {"sha512", "intrinsic"}]
-                  [] g = 7        -> [sig |-> {"ed25519"}, hash |-> {"intrinsic", "none"}]
-                  [] OTHER        -> [sig |-> {}, hash |-> {}]
-  ELSE [sig  |-> CASE g = 1 -> {"rsa", "pkcs1v15"} [] g = 2 -> {"dsa"} [] g = 3 -> {"ecdsa"} [] OTHER -> {},
-        hash |-> {LegacyHashName(h)}]
+  IF h = 8 THEN CASE g \in {4, 9}  -> [sig |-> {"rsa", "rsapss", Literal(g)}, hash |-> {"sha256", "intrinsic"}]
+                  [] g \in {5, 10} -> [sig |-> {"rsa", "rsapss", Literal(g)}, hash |-> {"sha384", "intrinsic"}]
+                  [] g \in {6, 11} -> [sig |-> {"rsa", "rsapss", Literal(g)}, hash |-> {"sha512", "intrinsic"}]
+                  [] g = 7        -> [sig |-> {"ed25519", Literal(g)}, hash |-> {"intrinsic", "none"}]
+                  [] OTHER        -> [sig |-> {Literal(g)}, hash |-> {"intrinsic"}]
+  ELSE [sig  |-> {Literal(g)} \cup (CASE g = 1 -> {"rsa", "pkcs1v15"} [] g = 2 -> {"dsa"} [] g = 3 -> {"ecdsa"} [] OTHER -> {}),
+        hash |-> {LegacyHashName(h), Literal(h)}]
 \* the name a crypto.Hash value (MD5=2 SHA1=3 SHA224=4 SHA256=5 SHA384=6 SHA512=7) gets when it is
 \* mistaken for a TLS HashAlgorithm id - only used to classify a rejection for the known findings
 CryptoHashConfusion(s) ==
@@ -380,7 +383,15 @@ CryptoHashConfusion(s) ==
       real == IF h = 8 THEN (CASE g \in {4, 9} -> 4 [] g \in {5, 10} -> 5 [] g \in {6, 11} -> 6 [] OTHER -> 0) ELSE h
   IN CASE real = 2 -> "sha224" [] real = 4 -> "sha384" [] real = 5 -> "sha512" [] real = 6 -> "unknown.7" [] OTHER -> "?"
 
-SpecialLog28 == {"ch_sigalg_names", "skx_sig_name", "skx_hash_name"}
+SpecialLog28 == {"ch_sigalg_names", "skx_sig_name", "skx_hash_name", "sh_scts"}
+\* SCT list of the ServerHello: entries <<raw, parsed>>; every logged Raw equals the wire bytes and
+\* every logged Parsed is the independent parse of exactly those bytes - or absent ("")
+SctBad(o) == IF "sh_scts" \notin DOMAIN o.log THEN FALSE
+             ELSE IF "sh_scts" \notin DOMAIN o.wire THEN TRUE
+             ELSE \/ Len(o.log.sh_scts) # Len(o.wire.sh_scts)
+                  \/ \E i \in 1..Len(o.log.sh_scts) :
+                        \/ o.log.sh_scts[i][1] # o.wire.sh_scts[i][1]
+                        \/ o.log.sh_scts[i][2] \notin {"", o.wire.sh_scts[i][2]}
 SigalgBad(o) == IF "ch_sigalg_names" \notin DOMAIN o.log \/ "ch_sigalgs" \notin DOMAIN o.wire THEN {}
                 ELSE IF Len(o.log.ch_sigalg_names) # Len(o.wire.ch_sigalgs) THEN {0}
                 ELSE {i \in 1..Len(o.wire.ch_sigalgs) :
@@ -394,6 +405,7 @@ BadFields28(o) ==
               ELSE (IF o.log.skx_sig_name \notin SchemeNames(o.wire.skx_sig_scheme).sig THEN {"skx_sig_name"} ELSE {})
                    \cup (IF o.log.skx_hash_name \notin SchemeNames(o.wire.skx_sig_scheme).hash THEN {"skx_hash_name"} ELSE {}))
         ELSE {})
+  \cup (IF SctBad(o) THEN {"sh_scts"} ELSE {})
   \cup (IF ~o.json_ok THEN {"json"} ELSE {})
 
 Cause28(o, f) ==
@@ -408,7 +420,7 @@ Cause28(o, f) ==
 
 Problems28(o) ==
   { [kind |-> "log-mismatch", field |-> f, cause |-> Cause28(o, f), vers |-> o.vers, resumed |-> o.resumed,
-     second |-> o.second, done |-> o.done] : f \in BadFields28(o) }
+     second |-> o.second, done |-> o.done, rewritten |-> o.rewritten] : f \in BadFields28(o) }
 
 -----------------------------------------------------------------------------
 (* C32 - arbitrary peer behaviour.  An observation of harness/cmd/c32: a corruption (kind, record
